@@ -359,11 +359,13 @@ def dialect_matchers_wf(tier, seed):
 
 
 from . import c01_bounded as _c01b  # noqa: E402
+from . import c01_tokens as _c01t  # noqa: E402,F401  (violations_from_segments, _lex_templated_file's filter)
 
 EXTRA = [dialect_matchers_wf] + list(getattr(_c01b, 'EXTRA', []))
 BOUNDED = list(_c01b.BOUNDED)
 
-MUTANTS = list(_c01b.MUTANTS) + [
+TRUSTED = TRUSTED + list(_c01t.TRUSTED)
+MUTANTS = list(_c01b.MUTANTS) + list(_c01t.MUTANTS) + [
     ("trim_reorder_regression", "sqlfluff/core/parser/lexer.py", "                    if content_buff:\n                        elem_buff.append(LexedElement(content_buff, self))\n                        content_buff = \"\"\n", ""),
     ("trim_drops_tail", "sqlfluff/core/parser/lexer.py", "        if content_buff + str_buff:\n            elem_buff.append(\n                LexedElement(content_buff + str_buff, self),\n            )", "        if str_buff:\n            elem_buff.append(\n                LexedElement(str_buff, self),\n            )"),
     ("trim_mid_loses_char", "sqlfluff/core/parser/lexer.py", "                    content_buff += str_buff[: trim_pos[1]]\n                    str_buff = str_buff[trim_pos[1] :]", "                    content_buff += str_buff[: trim_pos[0]]\n                    str_buff = str_buff[trim_pos[1] :]"),
